@@ -95,9 +95,11 @@ def prove(prop, tier, R, only_keys=None):
         if prop in lm.props:
             obligations += verify_lemma(name)
     effects = []
-    if prop in ("C10", "C18"):
+    if prop in ("C10", "C18", "C04"):
         from pyvc.effects import effect_obligations
-        effects = [o for o in effect_obligations() if prop == "C10" or ".graph_generate." in o.name or ".stochastic_atom_graph." in o.name]
+        effects = [o for o in effect_obligations() if (prop == "C10" and "bonds-are-made-only" not in o.name)
+                   or (prop == "C18" and (".graph_generate." in o.name or ".stochastic_atom_graph." in o.name))
+                   or (prop == "C04" and "bonds-are-made-only" in o.name)]
     timeout = 10 if tier == "quick" else 60
     t0 = time.time()
     solve_all(obligations, timeout=timeout)
